@@ -61,6 +61,51 @@ func (g *G) Bytes(n int) L {
 	return out
 }
 
+// Dict is the token dictionary (package dict), set once by the program that drives the generators.
+var Dict [][]byte
+
+// Text is the content of a free-form octet field (SDES item text, BYE reason, APP data, unknown XR
+// block): mostly random octets of length n, sometimes built from dictionary tokens, sometimes
+// "self-describing" (the first octet is the length of the text or of what follows it).
+func (g *G) Text(n int) L {
+	if len(Dict) == 0 || g.R.Intn(4) > 0 {
+		return g.Bytes(n)
+	}
+	tok := func() L {
+		t := Dict[g.R.Intn(len(Dict))]
+		out := make(L, len(t))
+		for i, b := range t {
+			out[i] = int(b)
+		}
+		return out
+	}
+	var out L
+	switch g.R.Intn(7) {
+	case 0:
+		out = tok()
+	case 1:
+		out = append(tok(), g.Bytes(g.Int(1, 6))...)
+	case 2:
+		out = append(g.Bytes(g.Int(1, 6)), tok()...)
+	case 3:
+		out = append(tok(), tok()...)
+	case 4:
+		out = append(append(tok(), g.Bytes(g.Int(0, 3))...), tok()...)
+	default:
+		// self-describing
+		m := g.Int(1, 9)
+		out = g.Bytes(m)
+		out[0] = g.Pick(m, m-1, m+1, m-2, 0)
+		if out[0].(int) < 0 {
+			out[0] = 0
+		}
+	}
+	if len(out) > 255 {
+		out = out[:255]
+	}
+	return out
+}
+
 // Len picks a list length: mostly small, sometimes at the maximum.
 func (g *G) Len(max int) int {
 	switch g.R.Intn(10) {
@@ -108,7 +153,7 @@ func (g *G) Item() V {
 		n = g.R.Intn(12)
 	}
 	t := g.Pick(1, 1, 1, 2, 3, 4, 5, 6, 7, 8, 9, 255)
-	return V{"t": t, "text": g.Bytes(n)}
+	return V{"t": t, "text": g.Text(n)}
 }
 
 func (g *G) Chunk() V {
@@ -139,12 +184,29 @@ func (g *G) U32s(n int) L {
 
 func (g *G) BYE() V {
 	n := g.Pick(0, 0, 1, 2, 3, 4, 5, 6, 7, 254, 255)
-	return V{"k": "BYE", "srcs": g.U32s(g.Len(31)), "reason": g.Bytes(n)}
+	return V{"k": "BYE", "srcs": g.U32s(g.Len(31)), "reason": g.Text(n)}
 }
 
 func (g *G) APP() V {
 	n := g.Pick(0, 1, 2, 3, 4, 5, 6, 7, 8, 9, 100)
-	return V{"k": "APP", "st": g.Pick(0, 1, 15, 30, 31, g.R.Intn(32)), "ssrc": g.U32(), "name": g.Bytes(4), "data": g.Bytes(n)}
+	return V{"k": "APP", "st": g.Pick(0, 1, 15, 30, 31, g.R.Intn(32)), "ssrc": g.U32(), "name": g.Name4(), "data": g.Text(n)}
+}
+
+// Name4 is a 4-octet identifier: random, or a 4-octet dictionary token.
+func (g *G) Name4() L {
+	if g.R.Intn(3) == 0 {
+		var four [][]byte
+		for _, t := range Dict {
+			if len(t) == 4 {
+				four = append(four, t)
+			}
+		}
+		if len(four) > 0 {
+			t := four[g.R.Intn(len(four))]
+			return L{int(t[0]), int(t[1]), int(t[2]), int(t[3])}
+		}
+	}
+	return g.Bytes(4)
 }
 
 func (g *G) NACK() V {
